@@ -29,6 +29,8 @@ std::string g_trace;  // operation sequence of the current history (replay witne
 struct boom {
   int lineage;
 };
+inline bool g_arm_move_throw = false;
+long g_throwing_moves = 0;
 
 template <int Pad, bool NothrowMove, int Align = 8>
 struct alignas(Align) wrapped {
@@ -42,7 +44,17 @@ struct alignas(Align) wrapped {
     violation("C18:erase:wrapped-object-copied", "lineage %d (trace: %s)", lineage, g_trace.c_str());
     reg();
   }
-  wrapped(wrapped&& o) noexcept(NothrowMove) : lineage(o.lineage), moved(o.moved), throw_on_poke(o.throw_on_poke) {
+  // a move that may throw does so when armed (once), before touching either object
+  static int lineage_or_throw(const wrapped& o) noexcept(NothrowMove) {
+    if constexpr (!NothrowMove) {
+      if (g_arm_move_throw) {
+        g_arm_move_throw = false;
+        throw boom{o.lineage};
+      }
+    }
+    return o.lineage;
+  }
+  wrapped(wrapped&& o) noexcept(NothrowMove) : lineage(lineage_or_throw(o)), moved(o.moved), throw_on_poke(o.throw_on_poke) {
     o.moved = true;
     ++L.moves;
     reg();
@@ -232,7 +244,7 @@ struct obj_test {
     g_trace.clear();
     int n = 3 + r.below(10);
     for (int step = 0; step < n; ++step) {
-      int op = r.below(6);
+      int op = r.below(7);
       int i = r.below(K), j = r.below(K);
       ++g_ops;
       if (op == 0 || (op <= 2 && !model[i].engaged)) {
@@ -271,6 +283,32 @@ struct obj_test {
           tr("selfmove(%d)", i);
           auto& alias = *slot[i];
           *slot[i] = std::move(alias);
+        }
+      } else if (op == 6) {
+        // move-assignment whose wrapped move constructor throws (only wrappers that admit throwing moves keep such
+        // objects inline): the destination's old object is destroyed exactly once, the destination is left empty-but-valid,
+        // the source keeps its object
+        if constexpr (!std::is_nothrow_move_assignable_v<Any>) {
+          if (i != j && model[i].engaged && !model[i].hollow && model[i].type == 2 && !model[i].heap && model[j].engaged) {
+            tr("throwing-moveassign(%d<-%d)", j, i);
+            long destroyed = L.destroyed;
+            bool had_object = !model[j].hollow;
+            bool threw = false;
+            g_arm_move_throw = true;
+            try {
+              *slot[j] = std::move(*slot[i]);
+            } catch (const boom&) {
+              threw = true;
+            }
+            g_arm_move_throw = false;
+            if (!threw)
+              violation("C18:any_object:throwing-move-did-not-propagate", "trace: %s", g_trace.c_str());
+            if (L.destroyed != destroyed + (had_object ? 1 : 0))
+              violation("C18:any_object:destination-not-destroyed-exactly-once-on-throwing-move", "%ld destructions (trace: %s)",
+                        L.destroyed - destroyed, g_trace.c_str());
+            model[j] = {true, -1, 0, false, true};
+            ++g_throwing_moves;
+          }
         }
       } else if (op == 3) {
         if (model[i].engaged) {
@@ -481,6 +519,7 @@ int main(int argc, char** argv) {
   stat_add("objects_stored_on_heap", g_heap_objects);
   stat_add("wrapped_moves", L.moves);
   stat_add("exceptions_propagated", g_exceptions);
+  stat_add("throwing_move_assignments", g_throwing_moves);
   {
     std::lock_guard<std::mutex> lk(g().mu);
   }
